@@ -543,6 +543,10 @@ pub enum GOp {
     MonthDay(u8, u8),
     /// time of day: 0 midnight, 1 last nanosecond, 2 noon, 3 the given nanosecond of the day, 4 unchanged plus 1 ns
     Tod(u8, u64),
+    /// the same calendar reading in another time scale
+    Scale(usize),
+    /// the same elapsed time (identical `Duration`) in another time scale: another calendar reading
+    Relabel(usize),
 }
 
 #[derive(Clone, Debug, Serialize, Deserialize)]
@@ -560,6 +564,8 @@ fn gop() -> BS<GOp> {
         (3, prop::sample::select(vec![-1000i16, -400, -100, -4, -3, -1, 1, 3, 4, 100, 400, 1000]).prop_map(GOp::Year).boxed()),
         (3, prop_oneof![Just((2u8, 28u8)), Just((2, 29)), Just((3, 1)), Just((12, 31)), Just((1, 1)), Just((2, 31)), (1u8..=12, 1u8..=31)].prop_map(|(m, d)| GOp::MonthDay(m, d)).boxed()),
         (3, (0u8..5, 0u64..86_400_000_000_000).prop_map(|(k, n)| GOp::Tod(k, n)).boxed()),
+        (2, (0usize..9).prop_map(GOp::Scale).boxed()),
+        (2, (0usize..9).prop_map(GOp::Relabel).boxed()),
     ])
 }
 
@@ -568,11 +574,12 @@ fn gwalk_strategy() -> BS<GWalk> {
 }
 
 fn gwalk_oracle(c: &GWalk) -> Verdict {
-    let ts = SCALES[c.s];
+    let mut sc = c.s;
+    let mut ts = SCALES[sc];
     let mut g1900 = c.g;
     let (mut steps, mut leap_day, mut pre_ref, mut year_jump) = (0u32, false, false, false);
     // state 0 is built from the count; every later state is built by the library from the fields of the model
-    let mut e = Epoch::from_duration(mk(c.g - greg_offset_ns(c.s)), ts);
+    let mut e = Epoch::from_duration(mk(c.g - greg_offset_ns(sc)), ts);
     for (i, op) in std::iter::once(None).chain(c.ops.iter().map(Some)).enumerate() {
         if let Some(op) = op {
             let g = greg_of_ns1900(g1900);
@@ -609,6 +616,20 @@ fn gwalk_oracle(c: &GWalk) -> Verdict {
                         _ => (tod + 1).min(NS_D - 1),
                     };
                 }
+                GOp::Scale(k) => {
+                    sc = k % 9;
+                    ts = SCALES[sc];
+                }
+                GOp::Relabel(k) => {
+                    let cnt = g1900 - greg_offset_ns(sc);
+                    sc = k % 9;
+                    ts = SCALES[sc];
+                    let g2 = greg_of_ns1900(cnt + greg_offset_ns(sc));
+                    y = g2.y;
+                    m = g2.m;
+                    d = g2.d;
+                    t = (cnt + greg_offset_ns(sc)).rem_euclid(NS_D);
+                }
             }
             if !(1..=9999).contains(&y) {
                 continue;
@@ -619,23 +640,35 @@ fn gwalk_oracle(c: &GWalk) -> Verdict {
             let built = lib!(Epoch::maybe_from_gregorian(y as i32, m as u8, d as u8, hh, mi, ss, ns, ts));
             e = match built {
                 Ok(x) => x,
-                Err(err) => fail!("step {} ({:?}): the valid fields {:04}-{:02}-{:02} {:02}:{:02}:{:02}.{:09} {} are rejected: {:?}", i, op, y, m, d, hh, mi, ss, ns, SCALE_NAMES[c.s], err),
+                Err(err) => fail!("step {} ({:?}): the valid fields {:04}-{:02}-{:02} {:02}:{:02}:{:02}.{:09} {} are rejected: {:?}", i, op, y, m, d, hh, mi, ss, ns, SCALE_NAMES[sc], err),
             };
             steps += 1;
         }
         let g = greg_of_ns1900(g1900);
-        let cnt = g1900 - greg_offset_ns(c.s);
+        let cnt = g1900 - greg_offset_ns(sc);
         ensure!(e.time_scale == ts, "state {}: time scale {:?}, want {:?}", i, e.time_scale, ts);
         ensure!(
             count(e.duration) == cnt,
             "state {} ({}): the epoch built from the fields {} has count {}, want {} (history {:?})",
-            i, SCALE_NAMES[c.s], render_iso(&g), count(e.duration), cnt, c.ops
+            i, SCALE_NAMES[sc], render_iso(&g), count(e.duration), cnt, c.ops
         );
-        let want = format!("{} {}", render_iso(&g), SCALE_NAMES[c.s]);
+        let want = format!("{} {}", render_iso(&g), SCALE_NAMES[sc]);
         let disp = lib!(format!("{e}"));
         ensure!(disp == want, "state {}: Display gives {:?}, want {:?} (history {:?})", i, disp, want, c.ops);
         let gs = lib!(e.to_gregorian_str(ts));
         ensure!(gs == want, "state {}: to_gregorian_str gives {:?}, want {:?} (history {:?})", i, gs, want, c.ops);
+        // the accessors agree with the fields
+        ensure!(lib!(e.year()) as i64 == g.y, "state {}: year() = {}, want {} (history {:?})", i, e.year(), g.y, c.ops);
+        let mn = lib!(e.month_name());
+        ensure!(format!("{mn:?}") == MONTH_LONG[(g.m - 1) as usize], "state {}: month_name() = {:?}, want {} (history {:?})", i, mn, MONTH_LONG[(g.m - 1) as usize], c.ops);
+        let diy_want = g1900 - days_1900(g.y, 1, 1) as i128 * NS_D;
+        let diy = lib!(e.duration_in_year());
+        ensure!(count(diy) == diy_want, "state {}: duration_in_year() = {}, want {} (history {:?})", i, count(diy), diy_want, c.ops);
+        let doy = lib!(e.day_of_year());
+        let err = abs_err_vs_rational(doy, diy_want + NS_D, NS_D);
+        ensure!(err <= 4.0 * ulp(doy.abs().max(1.0)), "state {}: day_of_year() = {}, want {} days and {} ns + 1 (history {:?})", i, doy, diy_want / NS_D, diy_want % NS_D, c.ops);
+        let (yy, dd) = lib!(e.year_days_of_year());
+        ensure!(yy as i64 == g.y && dd == doy, "state {}: year_days_of_year() = ({}, {}), want ({}, {}) (history {:?})", i, yy, dd, g.y, doy, c.ops);
         leap_day |= g.m == 2 && g.d == 29;
         pre_ref |= cnt < 0;
     }
